@@ -184,6 +184,8 @@ def harness(args, timeout=900):
     rc, out, dt = run([os.path.join(BIN, "harness")] + args, timeout=timeout, env=GOENV)
     if rc == 124:
         raise Stalled("harness %s did not finish within %ss" % (" ".join(args[:3]), timeout))
+    if rc < 0:
+        raise Stalled("harness %s was killed by signal %s (out of memory?)" % (" ".join(args[:3]), -rc))
     lines = [l for l in out.split("\n") if l.startswith("{")]
     if rc != 0 or not lines:
         raise Broken("harness %s failed (rc=%s):\n%s" % (args[0], rc, out[-3000:]))
